@@ -200,7 +200,7 @@ def _seg_at(s, rel, facts):
         if z3.is_int_value(rel):
             k = rel.as_long()
             return z3.IntVal(s.data[k]) if 0 <= k < len(s.data) else z3.IntVal(0)
-        if len(s.data) > 64:
+        if len(s.data) > 600:
             raise Unsupported("symbolic index into long concrete bytes")
         r = z3.IntVal(0)
         for k in reversed(range(len(s.data))):
